@@ -320,6 +320,87 @@ fn run_burst(image: &str, case: u64, cap: &Cap, ctx: &mut Ctx) {
   }
 }
 
+/// other device activity going on while the guest transfers bytes: nothing but the serial
+/// registers may decide what appears on the output
+const ACTIVITY: [(&str, &[u8]); 5] = [
+  ("oam-dma-started", &[0x3E, 0xC1, 0xE0, 0x46]),
+  ("lcd-on", &[0x3E, 0x91, 0xE0, 0x40]),
+  ("timer-on", &[0x3E, 0x05, 0xE0, 0x07]),
+  ("dma+lcd+timer", &[0x3E, 0x91, 0xE0, 0x40, 0x3E, 0x05, 0xE0, 0x07, 0x3E, 0xC1, 0xE0, 0x46]),
+  ("ie-all-if-all", &[0x3E, 0x1F, 0xE0, 0xFF, 0xE0, 0x0F]),
+];
+
+/// case = activity x store form: every sequence of length <= 2 over the 10 SB/SC writes, each
+/// program preceded by the activity's set-up code (so a transfer is in flight / the display
+/// is running / the timer counts while the serial registers are written)
+fn run_activity(image: &str, case: u64, cap: &Cap, ctx: &mut Ctx) {
+  let act = (case as usize) / FORMS;
+  let form = (case as usize) % FORMS;
+  let nseq = gen::count_sequences(LETTERS.len(), 2);
+  let mut code: Vec<u8> = vec![0xF3];
+  let mut want: Vec<u8> = Vec::new();
+  let mut sb = 0u8;
+  for i in 0..nseq {
+    let seq = gen::nth_sequence(LETTERS.len(), 2, i).unwrap();
+    code.extend_from_slice(ACTIVITY[act].1);
+    for l in seq.iter() {
+      let (sc, v) = LETTERS[*l];
+      emit_write(&mut code, form, sc, v);
+      if sc {
+        if v & 0x80 != 0 {
+          want.push(sb);
+        }
+      } else {
+        sb = v;
+      }
+    }
+    let next = 0x0150 + code.len() + 3;
+    code.extend_from_slice(&[0xC3, (next & 0xff) as u8, (next >> 8) as u8]);
+  }
+  code.extend_from_slice(&gen::EPILOGUE);
+  assert!(0x150 + code.len() < 0x4000);
+  let mut core = progrun::fresh_core(image).expect("image loads");
+  progrun::patch_program(&mut core, gen::PROG_ORG, &code);
+  capture_reset(cap);
+  let mut steps = 0u64;
+  while core.run_state == crate::emulator::RunState::Run && steps < 4 * nseq + 64 {
+    progrun::step(&mut core);
+    steps += 1;
+  }
+  let got = capture_read(cap);
+  ctx.count(0, nseq);
+  ctx.count(1, want.len() as u64);
+  ctx.class(0x800 + case);
+  if got != want {
+    let mut pos = 0usize;
+    while pos < got.len() && pos < want.len() && got[pos] == want[pos] {
+      pos += 1;
+    }
+    let kind = if got.len() < want.len() { "missing-bytes" } else if got.len() > want.len() { "extra-bytes" } else { "wrong-bytes" };
+    ctx.violation(&format!("C18 build={} activity={} form={} kind={}", progrun::this_build(), ACTIVITY[act].0, form_name(form).replace(' ', ""), kind), || {
+      J::obj()
+        .set("case", J::obj().set("activity", J::s(ACTIVITY[act].0)).set("activity_code", J::s(world::hex(ACTIVITY[act].1))).set("store_form", J::s(form_name(form))).set("programs", J::s("every sequence of length <= 2 over the 10 SB/SC writes, each preceded by the activity code")))
+        .set("expected_len", J::u(want.len() as u64))
+        .set("observed_len", J::u(got.len() as u64))
+        .set("first_difference_at", J::u(pos as u64))
+        .set("expected_from_there", J::s(world::hex(&want[pos.min(want.len())..(pos + 16).min(want.len())])))
+        .set("observed_from_there", J::s(world::hex(&got[pos.min(got.len())..(pos + 16).min(got.len())])))
+    });
+  }
+}
+
+pub fn run_activity_pool(image: &str, workers: usize) -> PoolResult {
+  let opts = PoolOpts { workers, chunk: 1, bitmap_bits: 1 << 12, samples_per_child: 0, quiet_stdout: false, ..PoolOpts::default() };
+  let img = image.to_string();
+  run_pool(
+    (ACTIVITY.len() * FORMS) as u64,
+    &opts,
+    |slot| capture_begin(slot),
+    |cap, case, ctx| run_activity(&img, case, cap, ctx),
+    |case, how| (format!("C18 build={} activity crash={}", progrun::this_build(), how), J::obj().set("case", J::obj().set("activity_case", J::u(case)))),
+  )
+}
+
 pub fn run_burst_pool(image: &str, workers: usize) -> PoolResult {
   let opts = PoolOpts { workers, chunk: 1, bitmap_bits: 1 << 12, samples_per_child: 0, quiet_stdout: false, ..PoolOpts::default() };
   let img = image.to_string();
@@ -349,6 +430,7 @@ pub fn worker(args: &[String]) -> i32 {
     let r2 = run_exhaustion_pool(&args[2]);
     r.merge(r2);
     r.merge(run_burst_pool(&args[2], 3));
+    r.merge(run_activity_pool(&args[2], 3));
     // keep our own stdout clean for the parent
     if std::fs::write(&args[3], meta_of(&r).to_string()).is_err() {
       return 2;
@@ -414,9 +496,10 @@ pub fn run(tier: &str) -> i32 {
   let mut r = run_build(&image, tier, 8);
   r.merge(run_exhaustion_pool(&image));
   r.merge(run_burst_pool(&image, 6));
+  r.merge(run_activity_pool(&image, 6));
   let progs = r.counters[0];
   let bytes = r.counters[1];
-  rep.add_stage("nojit-programs", &format!("every sequence of length <= {} over 10 SB/SC writes x 3 store forms ({} programs) + bursts of 1..300 transfers in one block + the cache-exhaustion program, non-jit build, fd 1 captured", depth, total_programs(depth)), r);
+  rep.add_stage("nojit-programs", &format!("every sequence of length <= {} over 10 SB/SC writes x 3 store forms ({} programs) + bursts of 1..300 transfers in one block + the cache-exhaustion program + every sequence of length <= 2 under 5 kinds of other device activity (OAM DMA in flight, display on, timer running, all three, IE/IF all set), non-jit build, fd 1 captured", depth, total_programs(depth)), r);
   let mut jit_progs = 0;
   match jit_child.unwrap().wait_with_output() {
     Ok(o) if o.status.success() => match progrun::parse_json_file(&jit_out) {
